@@ -219,7 +219,7 @@ func init() {
 		Level: "fault_enumeration",
 		Rule: "function bodies of n statements over the alphabet {marker, defer, defer…if true, defer…if false, deferred expression that raises, nested call with its own defers} with an exit (fall off the end, return, guarded return true/false, raise, host error, failure inside a nested call) injected at every statement index, run as a function, a method, a literal call, a list-chain callee and inside a second-level caller with its own defers; n ≤ 3 complete in quick, n ≤ 4 complete in thorough, plus bodies with a defer that reads a variable assigned later. " +
 			"Oracle: stdout marker sequence and final value/error (kind, message) against the defer model of the statement. distinct = distinct (body layout, exit kind, exit position, context) tuples; non-trivial = the body contains ≥1 defer" +
-			" Added: contexts iterator step, variable call, reduce-chain callee, operator methods behind infix/prefix/== syntax, callProp, list-chain property; guards that are truthy/falsy non-bools, whose value changes after the defer statement, or that print a marker.",
+			" Added: contexts iterator step, variable call, reduce-chain callee, operator methods behind infix/prefix/== syntax, callProp, list-chain property; guards that are truthy/falsy non-bools, whose value changes after the defer statement, or that print a marker. Sixth round: exits `guardRaises` (failing guard of defer / return / raise) and `nestedFailChain` (nested failing call made through 12 chain spellings).",
 		Assumptions: []string{
 			"model: defers reached before the exit are registered in order (guarded ones only when the condition is true); after the body they run in that order, stopping at the first one that raises, whose error replaces the outcome; otherwise the outcome is unchanged",
 			"every body ends with an explicit value expression, so the value of a body whose last statement is `defer` (undocumented) is never judged",
